@@ -355,6 +355,124 @@ def Fit.addData (F : Fit) (mi : Nat) (name : String) (ov : List (String × Targe
           [⟨name, tr, countValid nanx nany, keepValid nanx nany xs, keepValid nanx nany ys⟩] }
         ({ F with models := F.models.set mi m' }, none)
 
+/-! ### the residual the fit evaluates (`Model._calculate_residual`, `Fit._calculate_residual`, the closure of `Fit._fit`) -/
+
+/-- The value of a finite double given by its bit pattern (1 sign bit, 11 exponent bits, 52 fraction bits), exactly.
+    The samples a dataset holds are finite (NaN pairs are dropped by `add_data`); the theorems never look inside. -/
+def bitsToRat (b : Nat) : Rat :=
+  let s : Nat := b / 2 ^ 63 % 2
+  let e : Nat := b / 2 ^ 52 % 2048
+  let f : Nat := b % 2 ^ 52
+  let big : Nat := (2 ^ 52 + f) * 2 ^ (e - 1075)
+  let norm : Nat := 2 ^ 52 + f
+  let den : Nat := 2 ^ (1075 - e)
+  let sub : Nat := 2 ^ 1074
+  let mag : Rat :=
+    if e = 0 then (f : Rat) / (sub : Rat)
+    else if 1075 ≤ e then (big : Rat)
+    else (norm : Rat) / (den : Rat)
+  if s = 1 then -mag else mag
+
+/-- A model function: local parameter vector ↦ independent value ↦ model value (`Model._raw_call` at one point). -/
+abbrev ModelFn := List Rat → Rat → Rat
+
+/-- The toy models of the tie: `a0 * x**0 + a1 * x**1 + …` (running power). -/
+def polyAux : List Rat → Rat → Rat → Rat
+  | [], _, _ => 0
+  | a :: as, x, pw => a * pw + polyAux as x (pw * x)
+
+def polyFn : ModelFn := fun p x => polyAux p x 1
+
+/-- `data.y - self._raw_call(data.x, p_local)` for one dataset. -/
+def dataResidual (f : ModelFn) (p : List Rat) (d : Data) : List Rat :=
+  List.zipWith (fun x y => bitsToRat y - f p (bitsToRat x)) d.x d.y
+
+/-- `Model._calculate_residual`: for every condition (its local vector is computed ONCE, from the condition of the
+    group's first dataset), for every dataset of the condition, the residual block — concatenated in that order. -/
+def residualOf (conds : List (Condition × List Data)) (f : ModelFn) (g : List Rat) : List Rat :=
+  conds.flatMap fun cd => cd.2.flatMap (dataResidual f (getLocalParams cd.1 g))
+
+def ModelData.residual (f : ModelFn) (m : ModelData) (uniq : List String) (g : List Rat) : List Rat :=
+  residualOf (generateConditions m uniq) f g
+
+/-- `Fit._calculate_residual(parameter_values)`: the blocks of the models in constructor order. -/
+def Fit.residualAt (fs : List ModelFn) (F : Fit) (g : List Rat) : List Rat :=
+  (List.zipWith (fun (m : ModelData) f => m.residual f (F.table.map (·.1)) g) F.models fs).flatten
+
+/-- The function `Fit._fit` hands to the optimiser: `parameter_vector[fitted] = params; return
+    self._calculate_residual(parameter_vector)`. -/
+def Fit.objective (fs : List ModelFn) (F : Fit) (z : List Rat) : List Rat :=
+  F.residualAt fs (writeBack F.fitted z F.values)
+
+/-- `sum(r**2)` (twice the cost `least_squares` minimises). -/
+def sumSq (l : List Rat) : Rat := (l.map fun r => r * r).sum
+
+/-! correspondence only (no theorem uses these): the grouping variant and the magnitude of the terms of a residual
+    entry (the tolerance of the comparison with the doubles of the implementation is relative to it) -/
+
+def condsVariant (repaired : Bool) (m : ModelData) (uniq : List String) : List (Condition × List Data) :=
+  if repaired then
+    (groupsByTargets m).filterMap fun g => match g with
+      | [] => none
+      | r :: _ => some (mkCondition r.trans uniq, g)
+  else generateConditions m uniq
+
+def ratAbs (r : Rat) : Rat := if r < 0 then -r else r
+
+def polyScaleAux : List Rat → Rat → Rat → Rat
+  | [], _, _ => 0
+  | a :: as, x, pw => ratAbs (a * pw) + polyScaleAux as x (pw * x)
+
+def scaleOf (conds : List (Condition × List Data)) (g : List Rat) : List Rat :=
+  conds.flatMap fun cd => cd.2.flatMap fun d =>
+    List.zipWith (fun x y => ratAbs (bitsToRat y) + polyScaleAux (getLocalParams cd.1 g) (bitsToRat x) 1) d.x d.y
+
+def Fit.residualV (repaired : Bool) (F : Fit) (g : List Rat) : List Rat × List Rat :=
+  let uniq := F.table.map (·.1)
+  ((F.models.map fun m => residualOf (condsVariant repaired m uniq) polyFn g).flatten,
+   (F.models.map fun m => scaleOf (condsVariant repaired m uniq) g).flatten)
+
+/-! ### the Jacobian the fit hands to its optimiser (`Model._calculate_jacobian`, `Fit._calculate_jacobian`, the `jac`
+    closure of `Fit._fit`) -/
+
+/-- Model sensitivities: local parameter vector ↦ independent value ↦ the partial derivatives w.r.t. the local
+    parameters (`Model.jacobian` at one point, transposed). -/
+abbrev SensFn := List Rat → Rat → List Rat
+
+/-- The toy models: `np.vstack([x**k for k in range(n)])`. -/
+def polySensAux : Nat → Rat → Rat → List Rat
+  | 0, _, _ => []
+  | n + 1, x, pw => pw :: polySensAux n x (pw * x)
+
+def polySens : SensFn := fun p x => polySensAux p.length x 1
+
+/-- The rows of one dataset: a zero row of the width of the table per sample, then
+    `np.subtract.at(jacobian, (rows, p_indices), sensitivities[:, p_external])` (unbuffered: every local sensitivity is
+    subtracted from the column of its global parameter, repeated indices accumulate). -/
+def dataJacobian (J : SensFn) (c : Condition) (p : List Rat) (n : Nat) (d : Data) : List (List Rat) :=
+  d.x.map fun x => scatterRowSum c (List.replicate n 0) (J p (bitsToRat x))
+
+/-- `Model._calculate_jacobian`: conditions, datasets and samples in the order of the residual. -/
+def jacobianOf (conds : List (Condition × List Data)) (J : SensFn) (n : Nat) (g : List Rat) : List (List Rat) :=
+  conds.flatMap fun cd => cd.2.flatMap (dataJacobian J cd.1 (getLocalParams cd.1 g) n)
+
+def ModelData.jacobian (J : SensFn) (m : ModelData) (uniq : List String) (g : List Rat) : List (List Rat) :=
+  jacobianOf (generateConditions m uniq) J uniq.length g
+
+/-- `Fit._calculate_jacobian(parameter_values)`: the blocks of the models in constructor order. -/
+def Fit.jacobianAt (Js : List SensFn) (F : Fit) (g : List Rat) : List (List Rat) :=
+  (List.zipWith (fun (m : ModelData) J => m.jacobian J (F.table.map (·.1)) g) F.models Js).flatten
+
+/-- The `jac` callable `Fit._fit` hands to the optimiser: `parameter_vector[fitted] = params; return
+    self._calculate_jacobian(parameter_vector)[:, fitted]`. -/
+def Fit.jacObjective (Js : List SensFn) (F : Fit) (z : List Rat) : List (List Rat) :=
+  (F.jacobianAt Js (writeBack F.fitted z F.values)).map (maskSel F.fitted)
+
+/-- correspondence: all models are the polynomial toys; as-is / repaired grouping as for the residual -/
+def Fit.jacobianV (repaired : Bool) (F : Fit) (g : List Rat) : List (List Rat) :=
+  let uniq := F.table.map (·.1)
+  (F.models.map fun m => jacobianOf (condsVariant repaired m uniq) polySens uniq.length g).flatten
+
 /-! ### protocol -/
 open Verif.Proto
 
@@ -449,6 +567,45 @@ def exec (repaired : Bool) (F : Fit) : List Action → Fit
   | [] => F
   | a :: as => exec repaired (step repaired F a).1 as
 
+def showResid (p : List Rat × List Rat) : String := showRatList p.1 ++ "~" ++ showRatList p.2
+
+/-- The residual vectors a script makes the fit evaluate (all models are the polynomial toys): at every query the
+    residual at the current values; at every fit that reaches its optimiser what the function handed to the optimiser
+    answers at the start point and (when the optimiser answered) at the answer. Each with the magnitudes after `~`. -/
+def runResid (repaired : Bool) (F : Fit) : List Action → List String
+  | [] => []
+  | a :: as =>
+    let r := step repaired F a
+    let out : List String := match a with
+      | .query => ["q" ++ showResid (r.1.residualV repaired r.1.values)]
+      | .fit o =>
+        let G := F.rebuild repaired
+        match (F.fit repaired (fun _ _ _ => o)).2 with
+        | .raised _ => ["f-"]
+        | .optRaised _ _ x0 _ => ["f" ++ showResid (G.residualV repaired (writeBack G.fitted x0 G.values))]
+        | .done _ _ x0 x => ["f" ++ showResid (G.residualV repaired (writeBack G.fitted x0 G.values)) ++ ">" ++
+            showResid (G.residualV repaired (writeBack G.fitted x G.values))]
+      | _ => []
+    out ++ runResid repaired r.1 as
+
+/-- The Jacobians a script makes the fit evaluate (polynomial toys): at every query the full Jacobian at the current
+    values (all columns); at every fit that reaches its optimiser what the `jac` callable answers at the start point
+    (the fitted columns). -/
+def runJac (repaired : Bool) (F : Fit) : List Action → List String
+  | [] => []
+  | a :: as =>
+    let r := step repaired F a
+    let out : List String := match a with
+      | .query => ["q" ++ showList showRatList (r.1.jacobianV repaired r.1.values)]
+      | .fit o =>
+        let G := F.rebuild repaired
+        match (F.fit repaired (fun _ _ _ => o)).2 with
+        | .raised _ => ["f-"]
+        | .optRaised _ _ x0 _ | .done _ _ x0 _ =>
+          ["f" ++ showList showRatList ((G.jacobianV repaired (writeBack G.fitted x0 G.values)).map (maskSel G.fitted))]
+      | _ => []
+    out ++ runJac repaired r.1 as
+
 /-! parsing of one op line -/
 
 def target? : List String → Option (Target × List String)
@@ -535,6 +692,11 @@ def actions? : Nat → List String → Option (List Action)
      `_build_fit`, condition groups keyed by the target lists) would answer differently, that answer follows after
      ` || `; a Jacobian probe answers the row the code's scatter gives and, after `!`, the chain-rule row when it
      differs.
+  `c14.resid <same arguments as c14.run>` (polynomial toy models only) → for every `Q` `q[residual]~[magnitudes]`,
+     for every `F` `f-` (optimiser not reached) | `f[residual at start]~[..]` | `f[at start]~[..]>[at answer]~[..]`,
+     joined by `;` (as-is / repaired variants as for `c14.run`)
+  `c14.fjac <same arguments as c14.run>` (polynomial toy models only) → for every `Q` `q[[row]…]` (full Jacobian at the
+     table values), for every `F` `f-` | `f[[row]…]` (the `jac` callable at the start point: fitted columns)
   `c14.unique [..names..]`  → unique list and inverse indices -/
 def handle : List String → Option String
   | "c14.run" :: nm :: rest => do
@@ -544,6 +706,22 @@ def handle : List String → Option String
     let F : Fit := ⟨ms, [], false⟩
     let a := ";".intercalate (run false F acts)
     let b := ";".intercalate (run true F acts)
+    some (if a == b then a else a ++ " || " ++ b)
+  | "c14.resid" :: nm :: rest => do
+    let nm ← nat? nm
+    let (ms, rest) ← models? nm rest
+    let acts ← actions? (rest.length + 1) rest
+    let F : Fit := ⟨ms, [], false⟩
+    let a := ";".intercalate (runResid false F acts)
+    let b := ";".intercalate (runResid true F acts)
+    some (if a == b then a else a ++ " || " ++ b)
+  | "c14.fjac" :: nm :: rest => do
+    let nm ← nat? nm
+    let (ms, rest) ← models? nm rest
+    let acts ← actions? (rest.length + 1) rest
+    let F : Fit := ⟨ms, [], false⟩
+    let a := ";".intercalate (runJac false F acts)
+    let b := ";".intercalate (runJac true F acts)
     some (if a == b then a else a ++ " || " ++ b)
   | "c14.unique" :: toks => do
     let names ← toks.mapM str?
